@@ -210,6 +210,7 @@ func c16Wiring(p *Prog, r *Report) {
 		why = "ErrorHandler is not the standard oxy error handler"
 		if mc, ok := stripConv(eh).(*ssa.MakeClosure); ok {
 			f := mc.Fn.(*ssa.Function)
+			_ = f
 			if strings.Contains(f.Name(), "ServeHTTP") && len(mc.Bindings) == 1 {
 				if g := globalOf(mc.Bindings[0]); g == pkgUtils+".DefaultHandler" {
 					good = true
